@@ -54,6 +54,14 @@ func isOpShape(fn *ssa.Function) (recv *ssa.Parameter, params *ssa.Parameter, ok
 
 // annotateReplay records, on the obligations of an operator-shaped function, what the replayer needs.
 func (g *Gen) annotateReplay(obls []*core.Obl) {
+	if strings.HasPrefix(g.key, "parser.") || g.key == "Compile" {
+		for _, o := range obls {
+			if !o.Canary {
+				o.ReplayKind = "compile-probe"
+			}
+		}
+		return
+	}
 	recv, params, ok := isOpShape(g.fn)
 	if !ok || g.top == nil {
 		return
@@ -322,3 +330,66 @@ func tailLines(s string, n int) string {
 }
 
 var _ = sort.Strings
+
+// ReplayProbe: for safety obligations of the parser front end the solver's model is a token array /
+// cursor state, not a source text.  The replay therefore probes the real Compile with a fixed corpus of
+// pathological sources (empty, truncated, unbalanced, dangling operators, brackets) in both notations and
+// confirms the violation when one of them panics; otherwise the violation is reported without an input.
+func ReplayProbe(env *core.Env, p *load.Program, prop string, o *core.Obl) {
+	src := `package eval
+
+import (
+	"fmt"
+	"testing"
+)
+
+func TestVerifProbe(t *testing.T) {
+	probes := []string{"", " ", ";; c", ";;;; optimize:false", "(", ")", "()", "(())", "(+", "(+ 1", "(+ 1 2", "+ 1 2)", "(1)", "(+ 1 2))", "((+ 1 2)", "(+ 1 (", "\"", "\"a", "(= \"a", "(= x \"", "[", "]", "1 + [", "[1", "[1 \"a\"]", "1 +", "+", "- 1", "!", "!!", "!a", "1 2 mod(+)", "mod(", "mod)", "mod(,", ",", "1 ,", "if(", "if(1", "(if)", "(if 1)", "(if 1 2 3 4)", "a b", "1 2", "(+ 1 2) (+ 1 2)", "(in 1 (", "(in 1 ()", "(overlap () (", ";", "(;", "(+ 1 ;; c", "(+ 1 2) ;; c", " ", "( + 1 2)", "(+ 1 2 )", "(and (", "(let", "(let 1)", "(any 1)"}
+	for _, infix := range []bool{false, true} {
+		for _, s := range probes {
+			func() {
+				defer func() {
+					if r := recover(); r != nil {
+						fmt.Printf("PROBE-PANIC infix=%v source=%q: %v\n", infix, s, r)
+					}
+				}()
+				cc := NewConfig()
+				cc.CompileOptions[InfixNotation] = infix
+				cc.CompileOptions[AllowUndefinedVariable] = true
+				e, err := Compile(cc, s)
+				if (e == nil) == (err == nil) {
+					fmt.Printf("PROBE-PANIC infix=%v source=%q: program and error both nil or both set\n", infix, s)
+				}
+				if e != nil {
+					Dump(e)
+					DumpTable(e, false)
+				}
+			}()
+		}
+	}
+}
+`
+	rdir := filepath.Join(env.Out, "replays", prop)
+	os.MkdirAll(rdir, 0o755)
+	testFile := filepath.Join(rdir, sanitizeSym(o.Name)+"_probe_test.go.txt")
+	os.WriteFile(testFile, []byte(src), 0o644)
+	out, cmd := RunOverlayTest(env, testFile, "TestVerifProbe")
+	res := &core.ReplayResult{Cmd: cmd, TestFile: testFile}
+	var hits []string
+	for _, l := range strings.Split(out, "\n") {
+		if strings.HasPrefix(l, "PROBE-PANIC") {
+			hits = append(hits, l)
+		}
+	}
+	if len(hits) > 0 {
+		res.Confirmed = true
+		res.Output = strings.Join(hits, "\n")
+		if len(hits) > 6 {
+			res.Output = strings.Join(hits[:6], "\n") + fmt.Sprintf("\n... %d more", len(hits)-6)
+		}
+		o.Witness = hits[0]
+	} else {
+		res.Output = "no probe source makes Compile panic: " + tailLines(out, 3)
+	}
+	o.Replay = res
+}
